@@ -28,6 +28,7 @@ HARNESS = "C16_stream"
 DRAIN = 48
 K_STALL = "stall-deasserts-valid-while-beat-waits"
 K_EOP = "extendWidth-drops-unaligned-eop"
+K_DEADLOCK = "blockingReg-before-reduceWidth-deadlock"
 
 REG_STAGES = ("rd", "rb", "rr", "dc", "dl", "ff", "fz")
 
@@ -76,7 +77,24 @@ def chain_info(stages, hold, polite):
             if not held:
                 expect_transfers = False
             cap = cap * max(1, a)
-    return dict(expect_transfers=expect_transfers, expect_hold=held, cap=cap, ex_product=exprod, has_fifo=has_fifo)
+    # documented restriction (utils.h: regDownstreamBlocking "violates stream semantics"): a blocking register moves only
+    # while ready is high; an idle reduceWidth(r>=2) keeps ready low -> the pair deadlocks (no loss, no progress)
+    may_deadlock = False
+    waiting_for_ready = False          # a blocking register whose ready path is still combinational up to here
+    for k, a in stages:
+        if k == "rb":
+            waiting_for_ready = True
+        elif k in ("st", "ex") or (k == "dl" and a == 0) or (k == "re" and a <= 1):
+            pass
+        elif k == "re":
+            if waiting_for_ready:
+                may_deadlock = True
+            # ready_in of reduceWidth depends on its own counter only -> later stages see a normal consumer
+            waiting_for_ready = False
+        else:
+            waiting_for_ready = False
+    return dict(expect_transfers=expect_transfers, expect_hold=held, cap=cap, ex_product=exprod, has_fifo=has_fifo,
+                may_deadlock=may_deadlock)
 
 
 def f_chain(stages, xs, stats=None):
@@ -255,7 +273,15 @@ def gen_cases(seed, tiername, tag, count, n, allow_fifo=False):
             for b in ("rr", "re", "ex"):
                 cases.append(gen_case(rng, f"{tag}{i}", n, depth=2, hold=True, force=[a, b])); i += 1
     while len(cases) < count:
-        cases.append(gen_case(rng, f"{tag}{i}", n, allow_fifo=allow_fifo and rng.random() < 0.5)); i += 1
+        if allow_fifo:
+            # every case of this family contains at least one strm::fifo stage at a random position
+            depth = rng.choice([1, 2, 2, 3, 4, 5])
+            force = [None] * depth
+            force[rng.randrange(depth)] = rng.choice(["ff", "fz"])
+            cases.append(gen_case(rng, f"{tag}{i}", n, depth=depth, allow_fifo=True, force=force))
+        else:
+            cases.append(gen_case(rng, f"{tag}{i}", n))
+        i += 1
     return cases
 
 
@@ -370,7 +396,10 @@ def oracle_case(params, evlines):
             return dict(event=None, what=f"{len(exp_now) - len(tout)} beats in flight exceed the chain capacity {info['cap']}"), st, obs
         # after the drain phase (consumer ready, stalls off, producer idle) everything accepted must have come out
         drained = len(evlines) >= DRAIN and all((not parse_ev(l)["v"]) and parse_ev(l)["r"] and "1" not in parse_ev(l)["ctl"] for l in evlines[-(DRAIN - 8):])
-        if drained:
+        if drained and info["may_deadlock"]:
+            if len(tout) != len(exp_now) or (st["in_transfers"] == 0 and st["in_backpressure"] > 20):
+                obs[K_DEADLOCK] += 1
+        elif drained:
             st["drained_cases"] += 1
             if len(tout) != len(exp_now):
                 return dict(event=None, what=f"after {DRAIN - 8} idle cycles with the consumer ready only {len(tout)} of {len(exp_now)} expected beats came out (beat lost or stuck)",
@@ -521,9 +550,9 @@ def main():
 
     # ---------------- generated cases (tie + oracle)
     if tiername == "quick":
-        ntie, nfifo, ncyc = 420, 40, 200
+        ntie, nfifo, ncyc = 1500, 150, 200
     else:
-        ntie, nfifo, ncyc = 6000, 400, 360
+        ntie, nfifo, ncyc = 15000, 1500, 360
     run_batch(gen_cases(seed, tiername, "tie", ntie, ncyc), "tie")
     # chains containing strm::fifo: no Coq machine -> independent oracle only
     run_batch(gen_cases(seed, tiername, "fifo", nfifo, ncyc, allow_fifo=True), "fifo")
